@@ -86,6 +86,13 @@ CHECKS.update({
         ref="DESIGN.md 4 C18"),
 })
 
+CHECKS.update({
+    "C07": dict(
+        text="All of fileset.c is executed symbolically against contract models of my_fileset (setfile generations: any subset of three names per change), the monotonic clock (any non-decreasing readings, equal readings included), readers, mergers and iterators, over histories of <= 14 operations on two handles sharing one fileset (open/close iterators, reload, reload_now, setfile change, time passes, dup with other filters/interval, destroy in either order): a new iterator reads exactly the files of the most recent reload restricted by the handle's filter and never from an unloaded reader; no load/unload while an iterator is open; due reloads happen at the next source operation. Found F3 (fixed).",
+        note="libmy/my_fileset.c (stat/fopen/getline/qsort/bsearch) is modelled by contract, not executed; histories are enumerated shapes, clock readings and setfile contents are solver variables.",
+        ref="DESIGN.md 4 C07"),
+})
+
 NOT_APPLICABLE = {
     "C14": "needs an engine that explores/over-approximates all executions of pointer-sharing pthread code and decides happens-before; CBMC 6.11 stops on threadpool.c ('pointer handling for concurrency is unsound'), no other such engine is installed (DESIGN.md 4 C14)",
 }
